@@ -31,6 +31,7 @@ type result struct {
 	Overlapping int      `json:"histories_with_overlapping_operations"`
 	Unknown     int      `json:"checker_timeouts"`
 	TypeChecks  int      `json:"type_registration_checks"`
+	MassNames   int      `json:"mass_registration_names"`
 	Violations  []string `json:"violations"`
 	Sample      []string `json:"sample_history"`
 }
@@ -99,8 +100,10 @@ var model = porcupine.Model{
 func main() {
 	seed := flag.Int64("seed", 1, "")
 	n := flag.Int("n", 200, "histories")
+	mass := flag.Int("mass", 0, "distinct type names registered in one store")
 	flag.Parse()
 	res := &result{}
+	massRegistration(res, *seed, *mass)
 	for h := 0; h < *n; h++ {
 		s := models.NewSession(uint32(h+1), time.Hour)
 		st := s.GetEntityComponents()
@@ -260,4 +263,92 @@ func main() {
 		}
 	}
 	json.NewEncoder(os.Stdout).Encode(res)
+}
+
+// massRegistration: names and ids map one-to-one whatever the names are. Very
+// many distinct names of several shapes are registered in one store (enough
+// for any 32-bit digest of the name to collide: n^2 / 2^33 expected pairs);
+// every name must get an id of its own, resolve to it and be resolved from it,
+// and names never registered must not resolve.
+func massRegistration(res *result, seed int64, n int) {
+	if n == 0 {
+		return
+	}
+	r := rand.New(rand.NewSource(seed*7919 + 13))
+	syl := []string{"co", "star", "ring", "li", "quid", "de", "cli", "nate", "mac", "al", "lums", "tar", "age", "zin", "ke", "pose", "mesh", "an", "chor", "light", "phys", "ics", "ro", "ta", "tion", "scale", "tag", "id", "net", "sync"}
+	shape := func(i int) string {
+		switch i % 5 {
+		case 0:
+			k := 2 + r.Intn(4)
+			var b strings.Builder
+			for j := 0; j < k; j++ {
+				b.WriteString(syl[r.Intn(len(syl))])
+			}
+			return b.String()
+		case 1:
+			return fmt.Sprintf("type-%d", r.Int63())
+		case 2:
+			b := make([]byte, 1+r.Intn(12))
+			for j := range b {
+				b[j] = byte('a' + r.Intn(26))
+			}
+			return string(b)
+		case 3:
+			return fmt.Sprintf("com.example.%s.%s/%d", syl[r.Intn(len(syl))], syl[r.Intn(len(syl))], r.Intn(1<<20))
+		default:
+			b := make([]rune, 1+r.Intn(6))
+			for j := range b {
+				b[j] = rune(0x3b1 + r.Intn(600))
+			}
+			return string(b)
+		}
+	}
+	s := models.NewSession(1, time.Hour)
+	st := s.GetEntityComponents()
+	idOf := map[string]uint32{}
+	nameOf := map[uint32]string{}
+	bad := func(format string, a ...any) {
+		if len(res.Violations) < 6 {
+			res.Violations = append(res.Violations, fmt.Sprintf(format, a...))
+		}
+	}
+	for i := 0; len(idOf) < n && i < 4*n; i++ {
+		name := shape(i)
+		if _, ok := idOf[name]; ok {
+			continue
+		}
+		id := st.AddType(name)
+		if prev, ok := nameOf[id]; ok {
+			bad("type id %d was given to %q and to %q (after %d distinct names)", id, prev, name, len(idOf))
+			continue
+		}
+		idOf[name], nameOf[id] = id, name
+	}
+	res.MassNames = len(idOf)
+	k := 0
+	for name, id := range idOf {
+		if got, err := st.GetTypeID(name); err != nil || got != id {
+			bad("GetTypeID(%q) = %d, %v; registered as %d", name, got, err, id)
+		}
+		if got, err := st.GetTypeName(id); err != nil || got != name {
+			bad("GetTypeName(%d) = %q, %v; registered as %q", id, got, err, name)
+		}
+		// registering it again changes nothing
+		if k%16 == 0 {
+			if again := st.AddType(name); again != id {
+				bad("type name %q was registered as %d and as %d", name, id, again)
+			}
+		}
+		k++
+	}
+	for i := 0; i < n/2; i++ {
+		name := "never-" + shape(i)
+		if _, ok := idOf[name]; ok {
+			continue
+		}
+		if got, err := st.GetTypeID(name); err == nil {
+			bad("GetTypeID(%q) = %d although that type name was never registered (id %d belongs to %q)", name, got, got, nameOf[got])
+		}
+	}
+	res.TypeChecks += 3 * len(idOf)
 }
